@@ -4,7 +4,7 @@
    idealised by prims_ok P (MAC has fixed length; decrypt inverts encrypt on a handle with the same history; the cipher
    is length preserving).  Unforgeability appears as the premise `no_forgery` about the byte stream under attack. *)
 From Coq Require Import ZArith NArith List Bool Lia.
-From LT Require Import gen_Consts CodecModel AioModel AioLemmas AioRoundtrip AioIntegrity AioTheorems.
+From LT Require Import gen_Consts CodecModel AioModel AioLemmas AioRoundtrip AioIntegrity AioProgress AioTheorems.
 Import ListNotations.
 Local Open Scope Z_scope.
 
@@ -47,6 +47,29 @@ Theorem C13_roundtrip_complete : forall P c iv ms w sst evs os st,
   delivered os = ms.
 Proof. exact roundtrip_complete. Qed.
 Print Assumptions C13_roundtrip_complete.
+
+(* progress: keep calling Receive -- after more than mu = 3|pipe| + |buf| + flag further calls nothing is left undelivered,
+   unless the receive buffer is full of bytes without a complete record while more wait ("read buffer exceeded") *)
+Theorem C13_eventually_settled : forall P c nonce evs os st pipe n os2 st2 p2, (0 < blklen P)%nat ->
+  run P c nonce rstate0 [] evs = (os, st, pipe) ->
+  (mu st pipe < n)%nat ->
+  run P c nonce st pipe (repeat Call n) = (os2, st2, p2) ->
+  stream_deliveries P c nonce st2 p2 = [] \/ stuck st2 p2.
+Proof. exact eventually_settled. Qed.
+Print Assumptions C13_eventually_settled.
+
+(* ... hence every accepted sequence IS delivered completely, exactly once, in order, after any fragmentation *)
+Theorem C13_roundtrip_eventually : forall P c iv ms w sst evs os st pipe n os2 st2 p2,
+  prims_ok P -> length iv = blklen P ->
+  (encr c = true -> Forall (fun m => 0 <= m) ms) ->
+  send_all P c iv (sstate0 c iv) ms = Some (w, sst) ->
+  fed evs = w ->
+  run P c iv rstate0 [] evs = (os, st, pipe) ->
+  (mu st pipe < n)%nat ->
+  run P c iv st pipe (repeat Call n) = (os2, st2, p2) ->
+  delivered os ++ delivered os2 = ms \/ stuck st2 p2.
+Proof. exact roundtrip_eventually. Qed.
+Print Assumptions C13_roundtrip_eventually.
 
 Theorem C13_stream_roundtrip : forall P c iv ms w sst,
   prims_ok P -> length iv = blklen P ->
